@@ -292,26 +292,44 @@ Confirm(e) ==
   /\ txn' = IF o.open.id = "-" THEN NoTxn ELSE txn
   /\ UNCHANGED <<ever, dry, flt, dis, lastSet>>
 
+\* A cancel can carry an injected fault too (C07): one collaborator call of the rollback fails once. A cancel that answers
+\* with an error must leave the transaction registered - the client repeats the cancel - and the repeated cancel, once the
+\* fault is gone, ends in the state of a fault-free cancel.  (flt remembers the failed cancel: field cancelFault)
+CancelFaulted(e) == e.failat > 0 \/ e.devfail
+AfterFailedCancel == "cancelFault" \in DOMAIN flt
 Cancel(e) ==
   LET o == Obs(e) IN
   /\ bad' = bad \cup Failed(
         IF Matches(e) /\ open.armed
-        THEN {<<"C05", "CancelOk", e.ret = "ok">>} \cup RollbackClauses(e, o)
+        THEN IF CancelFaulted(e)
+             THEN {<<"C07", "FailedCancelStaysOpen", e.ret = "error" => o.open.id = open.id>>}
+                  \cup (IF e.ret = "ok" THEN RollbackClauses(e, o) ELSE {})
+             ELSE {<<"C05", "CancelOk", e.ret = "ok">>} \cup RollbackClauses(e, o)
+                  \cup (IF AfterFailedCancel /\ txn.valid
+                        THEN {<<"C07", "CancelRetryConverges",
+                                /\ e.ret = "ok" /\ o.open.id = "-"
+                                /\ o.I = RestoredStore(intended, txn.snap)>>}   \* the device: compared with the fault-free cancel (bin/prop_c07.py)
+                        ELSE {})
         ELSE {<<"C06", "WrongIdFails", e.ret = "error">>,
               <<"C06", "WrongIdNoEffect", Unchanged(e, o) /\ o.open = OpenProj>>}, l)
   /\ nt' = Bump((IF ~Matches(e) /\ open.id # "-" THEN {"C06"} ELSE {})
+                \cup (IF Matches(e) /\ CancelFaulted(e) /\ e.ret = "error" THEN {"C07"} ELSE {})
                 \cup (IF Matches(e) /\ txn.valid /\ (txn.I # intended \/ txn.repl) /\ txn.dev # device THEN {"C05"} ELSE {}))
   /\ intended' = o.I /\ mirror' = (IF e.envsync THEN o.d ELSE o.m) /\ device' = o.d /\ open' = NextOpen(o, open.short)
   /\ txn' = IF o.open.id = "-" THEN NoTxn ELSE txn
   /\ ever' = ever \cup LeavesOf(o.I)
-  /\ UNCHANGED <<dry, flt, dis, lastSet>>
+  /\ flt' = IF Matches(e) /\ CancelFaulted(e) /\ e.ret = "error" THEN [valid |-> FALSE, cancelFault |-> TRUE]
+            ELSE IF AfterFailedCancel THEN NoFlt ELSE flt
+  /\ UNCHANGED <<dry, dis, lastSet>>
 
 \* time passes: more than the short transaction timeout, less than the long one
 Wait(e) ==
   LET o == Obs(e) IN
   /\ bad' = bad \cup Failed(
         IF open.id = "-" THEN {<<"C06", "IdleWaitNoEffect", Unchanged(e, o) /\ o.open = OpenProj>>}
-        ELSE IF open.armed /\ open.short THEN RollbackClauses(e, o) \cup {<<"C06", "OneRollbackOnExpiry", Len(e.sets) <= (IF txn.valid /\ txn.repl THEN 2 ELSE 1)>>}
+        \* an applied short-timeout transaction expires during the wait whether or not the code was seen to arm its timer
+        ELSE IF open.short /\ (open.armed \/ txn.valid)
+             THEN RollbackClauses(e, o) \cup {<<"C06", "OneRollbackOnExpiry", Len(e.sets) <= (IF txn.valid /\ txn.repl THEN 2 ELSE 1)>>}
         ELSE IF open.armed THEN {<<"C06", "LongTransactionSurvivesWait", Unchanged(e, o) /\ o.open = OpenProj>>}
         ELSE {<<"C06", "NeverWedged", o.open.id = "-">>}, l)
   /\ nt' = Bump((IF open.id # "-" /\ open.armed /\ open.short /\ txn.valid /\ txn.I # intended /\ txn.dev # device THEN {"C05"} ELSE {})
